@@ -28,7 +28,7 @@ ASSUMPTIONS = ["operation alphabet as listed in the evidence; typed elements are
 NP = NotPassed()
 PROBES = [
     NP, None, True, False, 0, 1, 2, 1.0, 1.5, "", "a", "ab", "abc", [], [1], [1, "a"], ["a"], {}, {"a": 1}, {"a": "s"}, {"a": 1, "b": 2}, {"b": 2},
-    {"a": "s", "b": 2}, {"z": 1}, {"a": 1, "z": 1}, {"class": 3}, {"class": "x"}, {"class_": "x"}, {"class_": 3, "class": "x"}, {"a": 1, "b": "s", "c": True}, {"b": 7, "z": 0}, {"a": 1, "b": 2, "c": 3, "d": 4},
+    {"a": "s", "b": 2}, {"z": 1}, {"a": 1, "z": 1}, {"a": 1, "c": "s"}, {"a": 1, "c": 1}, {"a": "s", "q": "no"}, {"class": 3}, {"class": "x"}, {"class_": "x"}, {"class_": 3, "class": "x"}, {"a": 1, "b": "s", "c": True}, {"b": 7, "z": 0}, {"a": 1, "b": 2, "c": 3, "d": 4},
 ]
 
 ELEMS = {
@@ -86,6 +86,35 @@ def prop_set(name, spec):
         ref["props"][name] = spec
 
     return history.Op("properties[%r]=Property(%s, required=%s, source=%r)" % (name, spec[0], spec[1], spec[2]), apply, has_props, model)
+
+
+def prop_update(name, spec, how):
+    """Add a property through the mapping's bulk methods (update / setdefault / |=), which do not go through item assignment."""
+    def apply(live):
+        new = Property(ELEMS[spec[0]](), required=spec[1], source=spec[2])
+        if how == "update":
+            live.properties.update({name: new})
+        elif how == "setdefault":
+            live.properties.pop(name, None)
+            live.properties.setdefault(name, new)
+        else:
+            live.properties |= {name: new}
+
+    def model(ref):
+        ref["props"][name] = spec
+
+    return history.Op("properties.%s(%r: Property(%s, required=%s))" % (how, name, spec[0], spec[1]), apply, has_props, model)
+
+
+def prop_all_refused(label):
+    """A wholesale assignment that is refused (one member is not a Property): the configuration stays what it was."""
+    def apply(live):
+        try:
+            live.properties = {"a": Property(String(), required=True), "q": Property(Integer()), "bad": 5}
+        except Exception:
+            pass
+
+    return history.Op("properties=%s (refused)" % label, apply, has_props, None)
 
 
 def prop_del(name):
@@ -162,6 +191,9 @@ PROP_OPS = [
     prop_set("class_", ("String()", True, None)),  # replaces a renamed property by one that names nothing: JSON name class_
     prop_set("a", ("Integer()", False, "b")),  # attribute a now stands for the JSON name b
     prop_set("b", ("String(default='d')", False, None)),
+    prop_update("b", ("Integer()", True, None), "update"),
+    prop_update("c", ("String()", True, None), "setdefault"),
+    prop_all_refused("{a: String required, q: Integer, bad: 5}"),
     prop_del("a"),
     prop_del("b"),
     prop_all("{b: Integer required}", {"b": ("Integer()", True, None)}),
